@@ -151,7 +151,7 @@ def build_vhdx(size=10 * MI, meta_offset=256 * KI, region_before=0,
                region_after=1, region_count=None, meta_before=1, meta_after=2,
                meta_count=None, item_offset=64 * KI, item_length=8, tail=0,
                fill=0, regi_sig=b'regi', meta_sig=b'metadata',
-               ident=b'vhdxfile', pad='foreign'):
+               ident=b'vhdxfile', pad='foreign', meta_len=MI):
     """A VHDX whose header area, region table and metadata region follow the
     MS-VHDX layout.  ``fill`` != 0 fills every byte the format leaves free
     with filler (0 = zeros, as qemu-img writes them)."""
@@ -188,7 +188,7 @@ def build_vhdx(size=10 * MI, meta_offset=256 * KI, region_before=0,
         if off + 32 > rt + 64 * KI:
             break
         if g == _guid(VHDX_METAREGION):
-            body = struct.pack('<QII', meta_offset, MI, 1)
+            body = struct.pack('<QII', meta_offset, meta_len & 0xffffffff, 1)
         else:
             body = struct.pack('<QII', 3 * MI + i * MI, MI, 1)
         buf[off:off + 32] = g + body
@@ -226,14 +226,15 @@ def build_vhdx(size=10 * MI, meta_offset=256 * KI, region_before=0,
         regi_sig == b'regi' and meta_sig == b'metadata' and
         ident == b'vhdxfile' and region_count is None and meta_count is None
         and item_length == 8 and item_offset >= 64 * KI and
-        meta_offset >= 256 * KI and n_region <= 2047 and n_meta <= 2047)
+        meta_offset >= 256 * KI and n_region <= 2047 and n_meta <= 2047
+        and item_offset + 8 <= meta_len)
     return Img('vhdx', buf,
                dict(size=size, meta_offset=meta_offset,
                     region_before=region_before, region_after=region_after,
                     region_count=region_count, meta_before=meta_before,
                     meta_after=meta_after, meta_count=meta_count,
                     item_offset=item_offset, item_length=item_length,
-                    tail=tail, fill=fill, pad=pad,
+                    tail=tail, fill=fill, pad=pad, meta_len=meta_len,
                     regi_sig=regi_sig.decode('latin-1'),
                     meta_sig=meta_sig.decode('latin-1'),
                     ident=ident.decode('latin-1')),
@@ -656,3 +657,53 @@ def overlay(length, background='zero', sigs=(), fill=1, fat=False):
         buf[0x10] = 2
         buf[0x15] = 0xF8
     return bytes(buf)
+
+
+# ------------------------------------------------------------- field tables
+# (offset, width, byteorder) of the numeric header fields each format
+# document defines - used to set "every length/count/offset field" to hostile
+# values, not only the ones an inspector happens to read today.
+
+FIELDS = {
+    'qcow2': [(4, 4, 'big'), (8, 8, 'big'), (16, 4, 'big'), (20, 4, 'big'),
+              (24, 8, 'big'), (32, 4, 'big'), (36, 4, 'big'), (40, 8, 'big'),
+              (48, 8, 'big'), (56, 4, 'big'), (60, 4, 'big'), (64, 8, 'big'),
+              (72, 8, 'big'), (80, 8, 'big'), (88, 8, 'big'), (96, 4, 'big'),
+              (100, 4, 'big')],
+    'qed': [(4, 4, 'little'), (8, 4, 'little'), (12, 4, 'little'),
+            (16, 8, 'little'), (24, 8, 'little'), (32, 8, 'little'),
+            (40, 8, 'little'), (48, 4, 'little'), (52, 4, 'little')],
+    'vhd': [(8, 4, 'big'), (12, 4, 'big'), (16, 8, 'big'), (24, 4, 'big'),
+            (40, 8, 'big'), (48, 8, 'big'), (56, 4, 'big'), (60, 4, 'big'),
+            (64, 4, 'big')],
+    'vmdk': [(4, 4, 'little'), (8, 4, 'little'), (12, 8, 'little'),
+             (20, 8, 'little'), (28, 8, 'little'), (36, 8, 'little'),
+             (44, 4, 'little'), (48, 8, 'little'), (56, 8, 'little'),
+             (64, 8, 'little')],
+    'vdi': [(0x44, 4, 'little'), (0x48, 4, 'little'), (0x4c, 4, 'little'),
+            (0x154, 4, 'little'), (0x158, 4, 'little'), (0x15c, 4, 'little'),
+            (0x170, 8, 'little'), (0x178, 4, 'little'), (0x180, 4, 'little'),
+            (0x184, 4, 'little')],
+    'luks': [(6, 2, 'big'), (104, 4, 'big'), (108, 4, 'big')] +
+            [(208 + 48 * i + o, 4, 'big') for i in range(8)
+             for o in (0, 4, 40, 44)],
+    'iso': [(32768 + 80, 4, 'little'), (32768 + 84, 4, 'big'),
+            (32768 + 120, 2, 'little'), (32768 + 128, 2, 'little'),
+            (32768 + 132, 4, 'little'), (32768 + 140, 4, 'little'),
+            (32768 + 148, 4, 'big'), (32768 + 158, 4, 'little'),
+            (32768 + 166, 4, 'little')],
+    'gpt': [(446 + 16 * i + o, 4, 'little') for i in range(4)
+            for o in (8, 12)] + [(446 + 16 * i + 4, 1, 'little')
+                                 for i in range(4)],
+    'vhdx': [(192 * KI + 8, 4, 'little'), (192 * KI + 32, 8, 'little'),
+             (192 * KI + 40, 4, 'little'), (192 * KI + 64, 8, 'little'),
+             (192 * KI + 72, 4, 'little')],
+    'raw': [],
+}
+HOSTILE_VALUES = (0, 1, 8, 512, 4096, 65536, 600 * KI, MI, 2 * MI,
+                  2 ** 31 - 1, 2 ** 31, 2 ** 32 - 1, 2 ** 32, 2 ** 40,
+                  2 ** 63 - 1, 2 ** 63, 2 ** 64 - 1)
+
+
+def field_bytes(value, width, order):
+    return (value & ((1 << (8 * width)) - 1)).to_bytes(width, order)
